@@ -1437,7 +1437,8 @@ class AnsiString:
             obj = obj[:idx] + replace + obj[idx+len(old):]
             if count > 0:
                 count -= 1
-            idx = obj._s.find(old, idx + len(new))
+            # An empty old string matches before every character; step over one so that the loop moves on
+            idx = obj._s.find(old, idx + len(new) + (0 if old else 1))
 
         if inplace:
             self._s = obj._s
